@@ -12,6 +12,9 @@
 //	dashed parses  <=> undashed parses
 //	render(4100-byte comment + dashed) == render(dashed)     (second tokenizer, > 4096 bytes)
 //
+// Brace family (brace.go): the same bases with text slots that contain braces which do not start a tag
+// (CSS, JSON, JavaScript), every dash subset, three spellings.
+//
 // Multi-tag family (multi.go): every ordered pair (thorough: also every ordered triple) of constructs
 // from a 12-entry tag alphabet, written one after the other with text in between, every subset of all
 // delimiters of the sequence dashed - what follows or precedes a dashed tag is a dimension of its own.
@@ -153,6 +156,11 @@ func run(t *vlib.T) {
 			return
 		}
 	}
+	// pass 1c: brace family (brace.go): the literal text around the tags contains braces that do not start
+	// a tag; every base, every dash subset, three spellings.
+	if !runBraces(t, styles) {
+		return
+	}
 	// pass 2: every text slot draws its own text independently of the others.
 	// quick: 3 texts per slot, bases with at most 8 delimiters; thorough: 5 texts per slot
 	// (4 where that exceeds 10^6 cases for one base).
@@ -202,6 +210,9 @@ func run(t *vlib.T) {
 	// pass 3 (thorough): every ordered triple of constructs, every dash subset (up to 10 delimiters;
 	// 12 delimiters: all subsets of size <= 3 and the all-dashed one), one filling per slot shape.
 	if t.Thorough() {
+		if !runBracesThorough(t) {
+			return
+		}
 		runSequences(t, 3, "triple", []int{styleSpaced}, "c", uniformFills(wsSeqLead, wsSeqTrail))
 	}
 }
@@ -218,6 +229,8 @@ func main() {
 			"carries a dash x every whitespace filling of the neighbouring literal text within the bounds x tag spelling (spaced/tight/multi-line); " +
 			"plus multi-tag sequences: every ordered pair (thorough: and triple) of 12 constructs (print, set, do <expr>, do <name>, include, import, from, if..endif, for..endfor, block..endblock, apply..endapply, comment) " +
 			"with text in between x every subset of all delimiters of the sequence (all 2^d up to d = 10; d = 12: size <= 3 and all-dashed) x spellings x uniform fillings; " +
+			"plus the brace family: every base x every dash subset x spellings with the text slots carrying one of 6 texts whose braces do not start a tag (a { b, {x}, .c{color:red}, {\"k\": 1}, { { z, a{b - {c) " +
+			"in the slots that have a core / in every slot (thorough: in each single slot, wider whitespace, every ordered pair of constructs); " +
 			"each rendered dashed, as the hand-trimmed undashed twin, and dashed behind a 4100-byte comment (second tokenizer). " +
 			"non-trivial = at least one dash stands next to a non-empty whitespace run, i.e. the dashed source and the twin differ by more than the dashes",
 		Assumptions: []string{
@@ -233,6 +246,7 @@ func main() {
 			cov["base_templates"] = len(bases)
 			cov["tag_delimiters_in_corpus"] = nd
 			cov["sequence_alphabet"] = len(units)
+			cov["brace_texts"] = len(braceCores)
 			cov["tag_pairs"] = len(units) * len(units)
 			if tier == "thorough" {
 				cov["tag_triples"] = len(units) * len(units) * len(units)
